@@ -188,7 +188,12 @@ func callGFunction(L *LState, tailcall bool, baseframe *callFrame) bool {
 	return false
 }
 
-func threadRun(L *LState) {
+// threadRun runs the coroutine L until it yields, returns or fails. setup, if
+// not nil, moves the values given to resume into L and prepares its first
+// frame; it runs under the same protection as the body, because it can fail
+// too (a registry overflow), and such a failure kills the coroutine like any
+// other error.
+func threadRun(L *LState, setup func()) {
 	if L.stack.IsEmpty() {
 		return
 	}
@@ -220,6 +225,9 @@ func threadRun(L *LState) {
 			}
 		}
 	}()
+	if setup != nil {
+		setup()
+	}
 	L.mainLoop(L, nil)
 }
 
